@@ -360,6 +360,10 @@ class Writer:
         self.__stream.write(MCAP0_MAGIC)
         if self.__should_close:
             self.__stream.close()
+        else:
+            # The stream may be a buffer this writer put around the caller's raw stream:
+            # nothing else will flush it before the caller closes the raw stream.
+            self.__stream.flush()
 
     def register_channel(
         self,
